@@ -140,6 +140,8 @@ def escapes(p: Path, e: Event, *, value_kinds: Optional[Dict[str, str]] = None) 
         elif op == "sorted":
             why = f"sorted() over elements of unknown kinds ({operands[0].key()[:50]}): unorderable members raise TypeError"
         elif op in ("min", "max"):
+            if operands and _known_nonempty(operands[0], p, e):
+                continue
             why = f"{op}() of a possibly empty iterable"
         elif op == "accept":
             why = "`...`/Nil marker used as a schema"
@@ -173,14 +175,33 @@ def _index_in_range(recv: V, idx: V, p: Path, e: Event) -> bool:
             if isinstance(t, Term) and t.op in ("lt", "eq") and f"len({rk})" in fk:
                 return True
         # first / last element of a sequence built one-for-one from a source that is known to be non-empty
-        src = _one_for_one_source(recv)
-        if src is not None and idx.value in (0, -1):
-            sk = f"len({src.key()})"
-            for fk, t, b in p.facts[:e.nfacts]:
-                if isinstance(t, Term) and t.op == "eq" and not b and {t.args[0].key(), t.args[1].key()} == {"0", sk}:
-                    return True
-                if isinstance(t, Term) and t.op == "lt" and b and t.args[0].key() == "0" and t.args[1].key() == sk:
-                    return True
+        if idx.value in (0, -1) and _known_nonempty(recv, p, e):
+            return True
+    return False
+
+
+def _known_nonempty(v: V, p: Path, e: Event) -> bool:
+    """v is built one-for-one from a source whose size the path condition has established to be positive."""
+    vk = v.key()
+    for fk, t, b in p.facts[:e.nfacts]:
+        if b and fk == vk and getattr(v, "kind", None) in ("list", "tuple", "set", "dict", "str"):
+            return True                         # `if v:` on a sized container
+        if isinstance(t, Term) and t.op == "eq" and not b and {t.args[0].key(), t.args[1].key()} == {"0", f"len({vk})"}:
+            return True
+        if isinstance(t, Term) and t.op == "lt" and b and t.args[0].key() == "0" and t.args[1].key() == f"len({vk})":
+            return True
+    src = _one_for_one_source(v)
+    if src is None:
+        src = v
+    if isinstance(src, Term) and src.op == "range" and len(src.args) == 1 and isinstance(src.args[0], V):
+        sk = src.args[0].key()                 # range(N) has N members
+    else:
+        sk = f"len({src.key()})"
+    for fk, t, b in p.facts[:e.nfacts]:
+        if isinstance(t, Term) and t.op == "eq" and not b and {t.args[0].key(), t.args[1].key()} == {"0", sk}:
+            return True
+        if isinstance(t, Term) and t.op == "lt" and b and t.args[0].key() == "0" and t.args[1].key() == sk:
+            return True
     return False
 
 
